@@ -170,7 +170,11 @@ def make_run_plan(run_seed: int, profile: str, tier: str = "quick", overrides: d
         b.models[mid] = recipe
         b.metas[mid] = meta
         for j in range(rng.randint(2, 3)):
-            b.params[f"{mid}p{j}"] = {"model": mid, "values": catalogue.gen_params(rng, recipe, meta)}
+            if j == 1:
+                # a neighbour of p0: only one or two leaves differ (what an optimiser does between calls)
+                b.params[f"{mid}p{j}"] = {"model": mid, "values": catalogue.perturb_params(rng, recipe, meta, b.params[f"{mid}p0"]["values"])}
+            else:
+                b.params[f"{mid}p{j}"] = {"model": mid, "values": catalogue.gen_params(rng, recipe, meta)}
         pool = [catalogue.gen_agent(rng, recipe, P["on_grid_bias"]) for _ in range(rng.randint(*P["pool"]))]
         b.pools[mid] = pool
         nb = rng.randint(2, 3) if not P.get("membership") else rng.randint(4, 6)
@@ -185,11 +189,25 @@ def make_run_plan(run_seed: int, profile: str, tier: str = "quick", overrides: d
             else:
                 agents = [copy.deepcopy(rng.choice(pool)) for _ in range(n)]
             bid = f"{mid}b{j}"
-            b.batches[bid] = {"model": mid, "agents": agents, "key_order": list(recipe["states_order"]), "content": bid, "int_dtype": "int64"}
+            a_dtype = "float64"
+            cs = recipe["cstate"]
+            if cs and not big and rng.random() < P.get("int_batch_p", 0.25):
+                # observed data often come as integer columns: integer-valued initial values of the
+                # continuous state, supplied with an integer dtype
+                import math
+
+                lo_i, hi_i = math.ceil(cs["start"]), math.floor(cs["stop"] * (1.0 if cs["scale"] == "log" else 1.25))
+                if hi_i >= lo_i:
+                    agents = [dict(ag, a=["v", float(rng.randint(lo_i, hi_i))]) for ag in copy.deepcopy(agents)]
+                    a_dtype = rng.choice(["int64", "int32"])
+            b.batches[bid] = {"model": mid, "agents": agents, "key_order": list(recipe["states_order"]), "content": bid, "int_dtype": "int64", "a_dtype": a_dtype}
             # a variant with another key order / integer dtype: same content, same signature
             ko = list(recipe["states_order"])
             rng.shuffle(ko)
-            b.batches[bid + "~v"] = {"model": mid, "agents": agents, "key_order": ko, "content": bid, "int_dtype": rng.choice(["int64", "int32"])}
+            b.batches[bid + "~v"] = {
+                "model": mid, "agents": agents, "key_order": ko, "content": bid, "int_dtype": rng.choice(["int64", "int32"]),
+                "a_dtype": rng.choice([a_dtype, "float64"]),
+            }
 
     # ---------------------------------------------------------------- call signatures
     sigs = []  # dicts: kind, mid, pid, (bid, seed, vp, targets)
@@ -221,6 +239,22 @@ def make_run_plan(run_seed: int, profile: str, tier: str = "quick", overrides: d
                     sigs.append({"kind": "SIM", "mid": mid, "pid": pid, "bid": bid, "seed": sd, "vp": vp, "targets": targets})
             else:
                 sigs.append({"kind": "SIM", "mid": mid, "pid": pid, "bid": bid, "seed": rng.choice(seeds_pool), "vp": vp, "targets": targets})
+    # estimation loops: the same call with p0 and with its neighbour p1
+    est_loops = []
+    if rng.random() < P.get("est_loop_p", 0.5):
+        base = [x for x in sigs if x["pid"].endswith("p0") or x["pid"].endswith("p1")]
+        if base:
+            s0 = dict(rng.choice(base))
+            other = s0["pid"][:-1] + ("1" if s0["pid"].endswith("0") else "0")
+            s1 = dict(s0, pid=other)
+            if s0["kind"] == "SIM":
+                if s0["vp"] != s0["pid"]:
+                    s0["vp"] = s0["pid"]
+                s1["vp"] = other
+            for x in (s0, s1):
+                if x not in sigs:
+                    sigs.append(x)
+            est_loops.append((s0, s1))
     # every SIM needs the solution for its vp: make sure those SOLVE signatures exist
     have = {(s["mid"], s["pid"]) for s in sigs if s["kind"] == "SOLVE"}
     for s in list(sigs):
@@ -315,56 +349,100 @@ def make_run_plan(run_seed: int, profile: str, tier: str = "quick", overrides: d
             loads[(mid, pid)] = op["id"]
         chaos_solve = {}
         priv = {}  # (worker, kind) -> current content
-        for _ in range(n_ops):
+
+        def make_call(s, w, leaf, hnd=None, prefer_inline_solve=False):
+            """Append what is needed and return the SOLVE/SIMULATE op for signature ``s`` (or None)."""
+            if s["kind"] == "SOLVE":
+                hs = [h for h in handles if h["mid"] == s["mid"] and h["target"] == "solve"]
+                if hnd is None:
+                    if not hs:
+                        return None
+                    hnd = rng.choice(hs)
+                op = solve_op(hnd["hid"], s, worker=w, needs=[hnd["build"]], leaf=leaf)
+                chaos_solve.setdefault((s["mid"], s["pid"]), op["id"])
+                return op
+            hs = [h for h in handles if h["mid"] == s["mid"] and h["target"] in ("simulate", "solve_and_simulate")]
+            if hnd is None:
+                if not hs:
+                    return None
+                hnd = rng.choice(hs)
+            vsrc, vkind, needs = None, None, [hnd["build"]]
+            must_v = hnd["target"] == "simulate" or s["vp"] != s["pid"]
+            if must_v or (not prefer_inline_solve and rng.random() < 0.4):
+                cands = []
+                if inc_index == 0 and (s["mid"], s["vp"]) in ref_solve:
+                    cands.append(("op", ref_solve[(s["mid"], s["vp"])], "op"))
+                if (s["mid"], s["vp"]) in chaos_solve:
+                    cands.append(("op", chaos_solve[(s["mid"], s["vp"])], "op"))
+                if (s["mid"], s["vp"]) in loads:
+                    cands.append(("op", loads[(s["mid"], s["vp"])], "store"))
+                if not cands:
+                    # produce it here first
+                    sh = [h for h in handles if h["mid"] == s["mid"] and h["target"] == "solve"]
+                    if not sh:
+                        hid = f"h{inc_index}_x{len(handles)}"
+                        bo = build_op(hid, s["mid"], "solve", jit=rng.random() < 0.6, debug=rng.random() < 0.7, worker=w)
+                        ops.append(bo)
+                        handles.append({"hid": hid, "mid": s["mid"], "target": "solve", "build": bo["id"]})
+                        sh = [handles[-1]]
+                    ph = rng.choice(sh)
+                    so = solve_op(ph["hid"], {"mid": s["mid"], "pid": s["vp"]}, worker=w, needs=[ph["build"]])
+                    ops.append(so)
+                    chaos_solve[(s["mid"], s["vp"])] = so["id"]
+                    cands.append(("op", so["id"], "op"))
+                c = rng.choice(cands)
+                vsrc, vkind = [c[0], c[1]], c[2]
+                needs.append(c[1])
+            return sim_op(
+                hnd["hid"], s, worker=w, needs=needs, vsrc=vsrc, vsrc_kind=vkind, leaf=leaf,
+                variant=rng.random() < 0.4, vform=rng.choice(["asis", "asis", "np", "jax"]),
+                bform=rng.choice(["np", "np", "jax"]),
+            )
+
+        # "estimation loop": one worker calls one long-lived function again and again with ONE
+        # params object of its own that it overwrites in place between the calls
+        loops = []
+        for s0, s1 in est_loops:
+            if rng.random() < 0.75:
+                w = rng.randrange(n_workers)
+                if s0["kind"] == "SOLVE":
+                    hs = [h for h in handles if h["mid"] == s0["mid"] and h["target"] == "solve"]
+                else:
+                    hs = [h for h in handles if h["mid"] == s0["mid"] and h["target"] in ("simulate", "solve_and_simulate")]
+                    ss = [h for h in hs if h["target"] == "solve_and_simulate"]
+                    if ss and rng.random() < 0.7:
+                        hs = ss
+                if not hs:
+                    continue
+                loops.append((s0, s1, w, rng.choice(hs), rng.choice(["float", "float", "np0d", "np"]), rng.choice([[0, 1], [0, 1, 0], [1, 0, 1], [0, 1, 0, 1]])))
+
+        def emit_loop(lp, tag):
+            s0, s1, w, hnd, mleaf, pattern = lp
+            key = f"E{inc_index}_{tag}w{w}:{s0['mid']}"
+            first = True
+            for which in pattern:
+                s = (s0, s1)[which]
+                if not first:
+                    ops.append({"id": b.oid(), "kind": "MUTATE", "worker": w, "obj": ["params", key], "to": s["pid"], "leaf": mleaf, "model_id": s["mid"]})
+                op = make_call(s, w, mleaf, hnd=hnd, prefer_inline_solve=True)
+                if op is None:
+                    return
+                op["pobj"] = key
+                op["leaf"] = mleaf
+                op["variant"] = False
+                ops.append(op)
+                first = False
+
+        loop_at = {rng.randrange(max(1, n_ops)): i for i in range(len(loops))}
+        for k in range(n_ops):
+            if k in loop_at:
+                emit_loop(loops[loop_at[k]], loop_at[k])
             s = rng.choice(sigs)
             w = rng.randrange(n_workers)
             leaf = rng.choice(["float", "np", "np0d", "jax"]) if extras["retype"] else "float"
-            if s["kind"] == "SOLVE":
-                hs = [h for h in handles if h["mid"] == s["mid"] and h["target"] == "solve"]
-                if not hs:
-                    continue
-                hnd = rng.choice(hs)
-                op = solve_op(hnd["hid"], s, worker=w, needs=[hnd["build"]], leaf=leaf)
-                chaos_solve.setdefault((s["mid"], s["pid"]), op["id"])
-            else:
-                hs = [h for h in handles if h["mid"] == s["mid"] and h["target"] in ("simulate", "solve_and_simulate")]
-                if s["vp"] != s["pid"]:
-                    pass
-                if not hs:
-                    continue
-                hnd = rng.choice(hs)
-                vsrc, vkind, needs = None, None, [hnd["build"]]
-                must_v = hnd["target"] == "simulate" or s["vp"] != s["pid"]
-                if must_v or rng.random() < 0.4:
-                    cands = []
-                    if inc_index == 0 and (s["mid"], s["vp"]) in ref_solve:
-                        cands.append(("op", ref_solve[(s["mid"], s["vp"])], "op"))
-                    if (s["mid"], s["vp"]) in chaos_solve:
-                        cands.append(("op", chaos_solve[(s["mid"], s["vp"])], "op"))
-                    if (s["mid"], s["vp"]) in loads:
-                        cands.append(("op", loads[(s["mid"], s["vp"])], "store"))
-                    if not cands:
-                        # produce it here first
-                        sh = [h for h in handles if h["mid"] == s["mid"] and h["target"] == "solve"]
-                        if not sh:
-                            hid = f"h{inc_index}_x{len(handles)}"
-                            bo = build_op(hid, s["mid"], "solve", jit=rng.random() < 0.6, debug=rng.random() < 0.7, worker=w)
-                            ops.append(bo)
-                            handles.append({"hid": hid, "mid": s["mid"], "target": "solve", "build": bo["id"]})
-                            sh = [handles[-1]]
-                        ph = rng.choice(sh)
-                        so = solve_op(ph["hid"], {"mid": s["mid"], "pid": s["vp"]}, worker=w, needs=[ph["build"]])
-                        ops.append(so)
-                        chaos_solve[(s["mid"], s["vp"])] = so["id"]
-                        cands.append(("op", so["id"], "op"))
-                    c = rng.choice(cands)
-                    vsrc, vkind = [c[0], c[1]], c[2]
-                    needs.append(c[1])
-                op = sim_op(
-                    hnd["hid"], s, worker=w, needs=needs, vsrc=vsrc, vsrc_kind=vkind, leaf=leaf,
-                    variant=rng.random() < 0.4, vform=rng.choice(["asis", "asis", "np", "jax"]),
-                    bform=rng.choice(["np", "np", "jax"]),
-                )
+            op = make_call(s, w, leaf)
+            if op is None:
+                continue
             # caller-owned mutable parameter object, private to the worker, overwritten in place
             if extras["mutate"] and rng.random() < 0.5:
                 key = f"P{inc_index}w{w}:{s['mid']}"
